@@ -69,7 +69,7 @@ def parseRec (p : Parsed) (rec : String) : Parsed :=
                        inj := inj }
     { p with rows := p.rows ++ [{ prov := pr, lazy := lazy = "1",
                                   ocls := if ocls = "p" then .prio else if ocls = "o" then .ord else .plain, okey := intOf okey }] }
-  | ["N", row, _ty, _cust, _q, _r, _ord, early, after, flt, cfg, wired] =>
+  | "N" :: row :: _ty :: _cust :: _q :: _r :: _ord :: early :: after :: flt :: cfg :: wired :: _ =>
     { p with nodes := p.nodes ++ [{ row := natOf row, early := natOf early, after := natOf after, flt := natOf flt,
                                     cfg := natOf cfg, wired := wired = "1" }] }
   | ["F", row, sname, kind, target, tk, tag] =>
